@@ -392,6 +392,10 @@ impl Prop for C14 {
                     }
                     Ok(Ok(l)) => l,
                 };
+                if let Some((c, t)) = super::c07::foreign_target(&back) {
+                    cx.violation("import|instance-target-is-not-a-cell-of-the-library", json!({"cell": c, "target": t}));
+                    return;
+                }
                 match summarize_raw(&back, &g.defs) {
                     Err(e) => cx.violation("import|unresolvable", json!({"error": e})),
                     Ok(got) => match first_diff(&want, &got) {
